@@ -657,6 +657,13 @@ func (nfs *Nfs) NFSPROC3_RENAME(args nfstypes.RENAME3args) nfstypes.RENAME3res {
 			}
 			dipto = dipfrom
 			inodes = []*inode.Inode{dipfrom}
+		} else if fromh.Ino == toh.Ino {
+			// two different handles for one inode number: at most one
+			// of them is current, and locking the number twice would
+			// never return
+			errRet(op, &reply.Status, nfstypes.NFS3ERR_STALE)
+			done = true
+			break
 		} else {
 			inodes = lockInodes(op, twoInums(fromh.Ino, toh.Ino))
 			if inodes == nil {
